@@ -43,7 +43,7 @@ Qed.
 
 (* turn every byte-class test into comparisons on [b2n b] (then `lia`) *)
 Ltac cls :=
-  unfold all, wschar, non_eol, basic_unescaped, mlb_unescaped, literal_char, mll_char,
+  unfold all, non_eol, mlb_unescaped, basic_unescaped, wschar, mll_char, literal_char,
     unquoted_key_char, Abnf.digit, digit1_9, digit0_7, digit0_1, Abnf.hexdig, non_ascii, rng,
     is_cont, inr in *;
   rewrite ?byte_eqb_n in *;
